@@ -20,6 +20,8 @@ func main() {
 	switch os.Args[1] {
 	case "check":
 		os.Exit(cmdCheck(os.Args[2:]))
+	case "replay":
+		os.Exit(cmdReplay(os.Args[2:]))
 	default:
 		fmt.Fprintln(os.Stderr, "unknown command")
 		os.Exit(2)
@@ -40,8 +42,8 @@ func cmdCheck(argv []string) int {
 	timeoutS := fs.Int("timeout", 0, "per-obligation timeout in seconds")
 	seed := fs.Int("seed", 0, "seed (only recorded; the check is deterministic)")
 	known := fs.String("known", "", "known findings file")
+	noReplay := fs.Bool("noreplay", false, "skip counterexample replay")
 	_ = seed
-	_ = known
 	fs.Parse(argv)
 	t0 := time.Now()
 
@@ -71,7 +73,9 @@ func cmdCheck(argv []string) int {
 		}
 		if ok && (re == nil || re.MatchString(c.Key)) {
 			sel = append(sel, c)
-			pkgset[c.Pkg] = true
+			if !c.Lemma {
+				pkgset[c.Pkg] = true
+			}
 		}
 	}
 	sort.Slice(sel, func(i, j int) bool { return sel[i].Key < sel[j].Key })
@@ -93,6 +97,10 @@ func cmdCheck(argv []string) int {
 	var vcs []*VC
 	var missing []string
 	for _, c := range sel {
+		if c.Lemma {
+			vcs = append(vcs, eng.verifyLemma(c))
+			continue
+		}
 		fn := eng.funcs[c.Key]
 		if fn == nil {
 			missing = append(missing, c.Key)
@@ -120,33 +128,39 @@ func cmdCheck(argv []string) int {
 	rep := summarize(eng, vcs, missing, *prop, *tier, *verbose)
 	rep.WallS = time.Since(t0).Seconds()
 	rep.LoadS = tload.Seconds()
-	code := report(rep, *prop, *out, *replays, *tier)
+	code := report(eng, rep, *prop, *out, *replays, *tier, loadKnown(*known), tmp, *noReplay)
 	return code
 }
 
 type FailRec struct {
-	Obligation string `json:"obligation"`
-	Answer     string `json:"answer"`
-	Solver     string `json:"solver"`
-	Output     string `json:"output,omitempty"`
-	Fn         string `json:"function"`
-	Kind       string `json:"kind"`
+	Obligation string        `json:"obligation"`
+	Answer     string        `json:"answer"`
+	Solver     string        `json:"solver"`
+	Output     string        `json:"solver_output,omitempty"`
+	Fn         string        `json:"function"`
+	Kind       string        `json:"kind"`
+	Replay     *ReplayResult `json:"replay,omitempty"`
+	Model      map[T]string  `json:"model,omitempty"`
+	Known      string        `json:"known_finding,omitempty"`
+	vc         *VC
+	o          *Obligation
 }
 
 type Report struct {
-	Funcs       []string
-	Obligations int
-	Discharged  int
-	Covers      int
-	CoversOK    int
-	Fails       []FailRec
-	Errors      []string
-	Assumes     []string
-	Samples     []map[string]interface{}
-	WallS       float64
-	LoadS       float64
-	SolverS     float64
+	Funcs         []string
+	Obligations   int
+	Discharged    int
+	Covers        int
+	CoversOK      int
+	Fails         []*FailRec
+	Errors        []string
+	Assumes       []string
+	Samples       []map[string]interface{}
+	WallS         float64
+	LoadS         float64
+	SolverS       float64
 	UsedContracts []string
+	KnownSeen     []string
 }
 
 func summarize(eng *Engine, vcs []*VC, missing []string, prop, tier string, verbose bool) *Report {
@@ -155,7 +169,7 @@ func summarize(eng *Engine, vcs []*VC, missing []string, prop, tier string, verb
 	used := map[string]bool{}
 	for _, m := range missing {
 		r.Errors = append(r.Errors, "function under contract not found in the program: "+m)
-		r.Fails = append(r.Fails, FailRec{Obligation: m + "#exists", Answer: "missing", Fn: m, Kind: "exists"})
+		r.Fails = append(r.Fails, &FailRec{Obligation: m + "#exists", Answer: "missing", Fn: m, Kind: "exists"})
 	}
 	for _, vc := range vcs {
 		r.Funcs = append(r.Funcs, vc.con.Key)
@@ -163,7 +177,7 @@ func summarize(eng *Engine, vcs []*VC, missing []string, prop, tier string, verb
 			r.Errors = append(r.Errors, vc.con.Key+": "+e)
 		}
 		if len(vc.errs) > 0 {
-			r.Fails = append(r.Fails, FailRec{Obligation: vc.con.Key + "#translate", Answer: "untranslatable", Output: strings.Join(vc.errs, "\n"), Fn: vc.con.Key, Kind: "translate"})
+			r.Fails = append(r.Fails, &FailRec{Obligation: vc.con.Key + "#translate", Answer: "untranslatable", Output: strings.Join(vc.errs, "\n"), Fn: vc.con.Key, Kind: "translate"})
 		}
 		for a := range vc.assumes {
 			asm[a] = true
@@ -179,10 +193,9 @@ func summarize(eng *Engine, vcs []*VC, missing []string, prop, tier string, verb
 			if o.Expect == "sat" {
 				r.Covers++
 				if o.Answer == "sat" || o.Answer == "unknown" || o.Answer == "timeout" {
-					// unknown is tolerated for covers (quantified axioms); unsat is vacuity
 					r.CoversOK++
 				} else {
-					r.Fails = append(r.Fails, FailRec{Obligation: o.Name, Answer: "vacuous(" + o.Answer + ")", Solver: o.Solver, Fn: o.Fn, Kind: o.Kind, Output: o.Output})
+					r.Fails = append(r.Fails, &FailRec{Obligation: o.Name, Answer: "vacuous(" + o.Answer + ")", Solver: o.Solver, Fn: o.Fn, Kind: o.Kind, Output: o.Output})
 				}
 				continue
 			}
@@ -195,15 +208,15 @@ func summarize(eng *Engine, vcs []*VC, missing []string, prop, tier string, verb
 					r.Samples = append(r.Samples, map[string]interface{}{"obligation": o.Name, "smt_bytes": o.Bytes, "answer": o.Answer, "solver": o.Solver, "ms": o.Ms})
 				}
 			} else {
-				r.Fails = append(r.Fails, FailRec{Obligation: o.Name, Answer: o.Answer, Solver: o.Solver, Output: o.Output, Fn: o.Fn, Kind: o.Kind})
+				r.Fails = append(r.Fails, &FailRec{Obligation: o.Name, Answer: o.Answer, Solver: o.Solver, Output: tail(o.Output, 1500), Fn: o.Fn, Kind: o.Kind, vc: vc, o: o})
 			}
 			if verbose {
-				fmt.Printf("  %-8s %-7s %5dms %s\n", o.Answer, o.Solver, o.Ms, o.Name)
+				fmt.Printf("  %-8s %-11s %5dms %s\n", o.Answer, o.Solver, o.Ms, o.Name)
 			}
 		}
 		if n == 0 {
 			r.Errors = append(r.Errors, vc.con.Key+": no obligations generated")
-			r.Fails = append(r.Fails, FailRec{Obligation: vc.con.Key + "#nonempty", Answer: "no-obligations", Fn: vc.con.Key, Kind: "vacuity"})
+			r.Fails = append(r.Fails, &FailRec{Obligation: vc.con.Key + "#nonempty", Answer: "no-obligations", Fn: vc.con.Key, Kind: "vacuity"})
 		}
 	}
 	r.Assumes = []string{}
@@ -219,40 +232,104 @@ func summarize(eng *Engine, vcs []*VC, missing []string, prop, tier string, verb
 	return r
 }
 
-func report(r *Report, prop, out, replays, tier string) int {
-	fmt.Printf("govc: property=%s functions=%d obligations=%d discharged=%d covers=%d/%d wall=%.1fs (load %.1fs, solver %.1fs)\n",
-		prop, len(r.Funcs), r.Obligations, r.Discharged, r.CoversOK, r.Covers, r.WallS, r.LoadS, r.SolverS)
-	for _, e := range r.Errors {
-		fmt.Println("ERROR:", e)
-	}
+func report(eng *Engine, r *Report, prop, out, replays, tier string, kf *KnownFile, tmpdir string, noReplay bool) int {
 	code := 0
 	if replays != "" {
 		os.MkdirAll(replays, 0o755)
 	}
+	var lines []string
+	nviol := 0
 	for _, f := range r.Fails {
+		known := kf.lookup(prop, f.Obligation)
+		if f.Answer == "sat" && f.vc != nil && !noReplay {
+			if f.vc.fn == nil {
+				if vals, err := f.vc.getValues(f.o, f.o.Extra, tmpdir); err == nil {
+					f.Model = vals
+				}
+			} else {
+				f.Replay = eng.replayFunction(f.vc, f.o, tmpdir)
+			}
+		}
+		if known != nil {
+			ok := true
+			why := ""
+			if f.Answer == "sat" && f.Model != nil {
+				if !f.vc.inWitnessClass(f.o, known.WitnessClass, f.Model, tmpdir) {
+					ok, why = false, "counterexample outside the recorded witness class"
+				}
+				if ok && known.Replay != "" && !noReplay {
+					f.Replay = eng.replayTemplate(known.Replay, f.Model, tmpdir, f.Obligation)
+					if !f.Replay.Confirmed {
+						ok, why = false, "recorded finding does not reproduce on the real code: "+f.Replay.Why
+					}
+				}
+			}
+			if ok {
+				f.Known = known.ID
+				r.KnownSeen = append(r.KnownSeen, known.ID+": "+f.Obligation)
+				r.Obligations--
+				msg := known.What
+				if f.Replay != nil && f.Replay.Confirmed {
+					msg += " [re-derived and replayed on the real code: " + f.Replay.Why + "]"
+				} else if f.Answer != "sat" {
+					msg += " [obligation undischarged (" + f.Answer + "); no fresh model this run]"
+				}
+				lines = append(lines, fmt.Sprintf("KNOWN-FINDING: property=%s %s: %s", prop, known.ID, msg))
+				if replays != "" {
+					b, _ := json.MarshalIndent(f, "", " ")
+					os.WriteFile(filepath.Join(replays, sanitize(f.Obligation)+".json"), b, 0o644)
+				}
+				continue
+			}
+			f.Known = known.ID + " (NOT suppressed: " + why + ")"
+		}
 		code = 1
+		nviol++
 		path := ""
 		if replays != "" {
 			path = filepath.Join(replays, sanitize(f.Obligation)+".json")
 			b, _ := json.MarshalIndent(f, "", " ")
 			os.WriteFile(path, b, 0o644)
 		}
-		fmt.Printf("FAILED %s answer=%s solver=%s\n", f.Obligation, f.Answer, f.Solver)
-		fmt.Printf("VIOLATION property=%s replay=%s no-failing-input-found\n", prop, path)
+		lines = append(lines, fmt.Sprintf("FAILED %s answer=%s solver=%s", f.Obligation, f.Answer, f.Solver))
+		if f.Replay != nil && f.Replay.Confirmed {
+			lines = append(lines, fmt.Sprintf("  replayed on the real code: %s; inputs %v", f.Replay.Why, f.Replay.Inputs))
+			lines = append(lines, fmt.Sprintf("VIOLATION property=%s replay=%s", prop, path))
+		} else {
+			if f.Replay != nil {
+				lines = append(lines, "  replay: "+f.Replay.Why)
+			}
+			lines = append(lines, fmt.Sprintf("VIOLATION property=%s replay=%s no-failing-input-found", prop, path))
+		}
+	}
+	fmt.Printf("govc: property=%s tier=%s functions=%d obligations=%d discharged=%d covers=%d/%d known-findings=%d wall=%.1fs (load %.1fs, solver %.1fs)\n",
+		prop, tier, len(r.Funcs), r.Obligations, r.Discharged, r.CoversOK, r.Covers, len(r.KnownSeen), r.WallS, r.LoadS, r.SolverS)
+	for _, e := range r.Errors {
+		fmt.Println("ERROR:", e)
+	}
+	for _, l := range lines {
+		fmt.Println(l)
 	}
 	if out != "" {
+		if r.KnownSeen == nil {
+			r.KnownSeen = []string{}
+		}
+		if r.Samples == nil {
+			r.Samples = []map[string]interface{}{}
+		}
 		ev := map[string]interface{}{
-			"property_id": prop, "tier": tier, "seed": 0, "level": "proof", "wall_s": r.WallS, "violations": len(r.Fails),
+			"property_id": prop, "tier": tier, "seed": 0, "level": "proof", "wall_s": r.WallS, "violations": nviol,
 			"coverage": map[string]interface{}{
 				"obligations": r.Obligations, "discharged": r.Discharged,
-				"checker_cmd":              "govc check -prop " + prop + " -tier " + tier,
-				"functions_under_contract": r.Funcs,
-				"per_solver":               solverStats,
-				"vacuity":                  map[string]int{"covers": r.Covers, "covers_ok": r.CoversOK},
-				"samples":                  r.Samples,
-				"trusted_base":             append([]string{"go/ssa + govc SSA->SMT translation", "SMT solvers"}, r.Assumes...),
+				"checker_cmd":                  "govc check -prop " + prop + " -tier " + tier,
+				"functions_under_contract":     r.Funcs,
+				"per_solver":                   solverStats,
+				"vacuity":                      map[string]int{"covers": r.Covers, "covers_ok": r.CoversOK},
+				"samples":                      r.Samples,
+				"trusted_base":                 append([]string{"go/ssa + govc SSA->SMT translation", "SMT solvers"}, r.Assumes...),
 				"contracts_used_at_call_sites": r.UsedContracts,
-				"solver_time_s":            r.SolverS,
+				"known_findings_seen":          r.KnownSeen,
+				"solver_time_s":                r.SolverS,
 			},
 			"assumptions": append([]string{"go/ssa construction and the SSA->SMT translation of govc", "solver soundness (z3 4.8.12, z3 5.1.0, cvc5 1.0 raced)", "Go memory safety; well-typed initial heap"}, r.Assumes...),
 		}
@@ -261,4 +338,43 @@ func report(r *Report, prop, out, replays, tier string) int {
 		os.WriteFile(out, b, 0o644)
 	}
 	return code
+}
+
+// cmdReplay re-runs the recorded replay test of a violation file against /repo's current tree.
+func cmdReplay(argv []string) int {
+	fs := flag.NewFlagSet("replay", flag.ExitOnError)
+	prop := fs.String("prop", "", "property id")
+	file := fs.String("file", "", "replay file written by a failed check")
+	repo := fs.String("repo", "/repo", "repository root")
+	fs.Parse(argv)
+	b, err := os.ReadFile(*file)
+	if err != nil {
+		fmt.Fprintln(os.Stderr, err)
+		return 2
+	}
+	var f FailRec
+	if err := json.Unmarshal(b, &f); err != nil {
+		fmt.Fprintln(os.Stderr, err)
+		return 2
+	}
+	fmt.Printf("property=%s obligation=%s answer=%s solver=%s\n", *prop, f.Obligation, f.Answer, f.Solver)
+	if f.Replay == nil || f.Replay.TestSrc == "" {
+		fmt.Println("no replayable input was recorded for this obligation (no-failing-input-found); solver output:")
+		fmt.Println(f.Output)
+		return 1
+	}
+	tmp, _ := os.MkdirTemp("", "govcreplay")
+	defer os.RemoveAll(tmp)
+	tp := filepath.Join(tmp, "replay_test.go")
+	os.WriteFile(tp, []byte(f.Replay.TestSrc), 0o644)
+	out, _ := runOverlayTest(*repo, filepath.Join(*repo, f.Replay.PkgDir), tp, "TestGovcReplay", tmp)
+	fmt.Println("inputs:", f.Replay.Inputs)
+	fmt.Println("recorded verdict:", f.Replay.Why, "| clause:", f.Replay.Clause)
+	fmt.Println("--- output of the real code now:")
+	fmt.Println(out)
+	if f.Replay.Confirmed {
+		fmt.Printf("VIOLATION property=%s replay=%s\n", *prop, *file)
+		return 1
+	}
+	return 0
 }
